@@ -338,6 +338,16 @@ func Signed(w *aclh.World, root *treechangeproto.RawTreeChangeWithId, author int
 	return raw
 }
 
+// SignedKey: like Signed, the change names a read key (ReadKeyId); the content stays unencrypted.
+func SignedKey(w *aclh.World, root *treechangeproto.RawTreeChangeWithId, author int, aclHead string, prev []string, snap string, data []byte, ts int64, readKeyId string) *treechangeproto.RawTreeChangeWithId {
+	_, raw, err := objecttree.NewChangeBuilder(keyStore, root).Build(objecttree.BuilderContent{
+		TreeHeadIds: prev, AclHeadId: aclHead, SnapshotBaseId: snap, Unencrypted: true, ReadKeyId: readKeyId,
+		PrivKey: w.Key(author), Content: data, Timestamp: ts, DataType: "c02",
+	})
+	must(err)
+	return raw
+}
+
 func cidOf(b []byte) string {
 	id, err := cidutil.NewCidFromBytes(b)
 	must(err)
